@@ -51,7 +51,7 @@ def rand_text(rnd):
     return t
 
 
-STR_PREFIX = ["", "", "", "r", "b", "R", "u", "br", "Rb", "p", "pr"]
+STR_PREFIX = ["", "", "", "r", "b", "R", "u", "br", "Rb", "p", "pr", "f", "rf", "F", "fR", "pf"]
 STR_BODY = ["wakka", "a b", "", "$foo", "x y  z", "-l", "it", "@(a)", "#c", "é", "1", "a\\n", "{x}", "(", "]"]
 
 
@@ -94,14 +94,17 @@ class Gen:
                 exp.append(("text", t))
                 plain.append(t)
             elif r < 0.64:
-                if prev_ident or (src and src[-1] in "'\""):
-                    continue  # a preceding identifier character would be read as a string prefix
+                if src and src[-1] in "'\"":
+                    continue  # (two adjacent quotes would read as an empty string or a triple quote)
+                # a preceding letter may turn into a string prefix (cut -f"1"): the word is passed verbatim all the same
                 s = rand_string(rnd)
+                if prev_kind == "env" and s[0] not in "'\"":
+                    continue  # (prefix letters would extend the variable's name)
                 src += s
                 exp.append(("text", s))
                 plain.append(" ")
             elif r < 0.74:
-                name = rnd.choice(["HOME", "x", "PATH", "_v1", "Ünï"])
+                name = rnd.choice(["HOME", "x", "PATH", "_v1", "Ünï", "b", "rb", "f", "u", "R", "p", "Br", "fr"])  # (also names that spell a string prefix)
                 if src.endswith("$") or (src and src[-1] == "@"):
                     continue
                 src += "$" + name
